@@ -1448,3 +1448,122 @@ def optional_chunk_rule(ck, fb, rk=None):
             nonmand.add(frozenset(at))
     ok = len(nonmand) >= 2 and all(any(frozenset((estr(c), pol if isinstance(pol, bool) else estr(pol[1]) if isinstance(pol, tuple) else str(pol)) for c, pol, e in rk.facts(b)) == g for b, i, n in skips) for g in nonmand)
     (ck.ok if ok else lambda r, w, t: ck.violate(r, w, t, "V.chunk:skip"))("V.chunk", rk.where, "read_chunk skips the payload of optional chunks of unknown type or version (%d optional paths, %d skip calls)" % (len(nonmand), len(skips)))
+
+
+# =============================================================================================== S.extract
+import re
+SCALAR_T = re.compile(r"^(const )?((un)?signed )?(bool|char|short|int|long|long long|float|double|long double|size_t|std::size_t|u?int(8|16|32|64)_t|unsigned|(un)?signed char|unsigned (short|int|long|long long))$")
+
+
+def extract_init_rule(ck, fb):
+    """a formatted extraction that fails in its sentry (end of file while skipping white space, stream already failed)
+    does not touch its target: a scalar target declared without an initialiser is then read indeterminate"""
+    from .canon import Canon
+    ck.rule("S.extract", "in the ASCII reader and the text deserialisers, a scalar local that receives a formatted extraction (`stream >> v`, `deserialize(stream, v)`) is either declared with an initialiser or read only where a test of that stream's state holds: a failed sentry leaves the target untouched, and reading an indeterminate scalar (a loop bound, a resize argument, a bool stored into vector<bool>) is undefined behaviour")
+    n = 0
+    seen = set()
+    canary = False
+    for f in fb.repo_fns() + [g for g in fb.fns.values() if "/verif/fixtures/canary_x" in g.file and g.has_cfg]:
+        if not f.has_cfg or f.where in seen:
+            continue
+        if not ("/FileManager/" in f.file or "/IO/" in f.file or f.name == "deserialize" or "/verif/fixtures/canary_x" in f.file):
+            continue
+        cn = Canon(f)
+        cands = []
+        for vid, (v, b, i) in cn.decl.items():
+            if not SCALAR_T.match(v.get("t", "")):
+                continue
+            ext = []
+            for kind, mb, mi, m in cn.mods.get(vid, []):
+                if kind != "call":
+                    continue
+                pn = m.get("pn", m.get("n", ""))
+                stream = None
+                if m.get("op") == ">>" and ("basic_istream" in pn or pn.startswith("std::operator>>")):
+                    stream = m["r"] if m.get("r") is not None else m["a"][0]
+                elif pn.split("::")[-1] == "deserialize" and m.get("a") and "istream" in str(unwrap(f.resolve(m["a"][0])).get("t", "")):
+                    stream = m["a"][0]
+                if stream is not None:
+                    ext.append((mb, mi, m, cn.s(stream)))
+            if ext:
+                cands.append((vid, v, ext))
+        if not cands:
+            continue
+        seen.add(f.where)
+        for vid, v, ext in cands:
+            n += 1
+            if v.get("init") is not None:
+                if "/verif/fixtures/" not in f.file:
+                    ck.ok("S.extract", "%s:%s" % (f.file, v.get("ln", f.line)), "%s: extraction target `%s %s` is declared with an initialiser" % (f.pq.split("OpenVolumeMesh::")[-1][:60], v["t"], v["n"]))
+                continue
+            streams = {e[3] for e in ext}
+            targets = set()
+            for mb, mi, m, s_ in ext:
+                for a_ in list(m.get("a", [])) + ([m["r"]] if m.get("r") is not None else []):
+                    t_ = unwrap(f.resolve(a_))
+                    if isinstance(t_, dict) and t_.get("k") == "var" and t_.get("id") == vid and t_.get("_at"):
+                        targets.add(tuple(t_["_at"]))
+            bad = []
+            for b, i, x in f.nodes(("var",)):
+                if x.get("id") != vid or b not in f.reach() or (x.get("_at") and tuple(x["_at"]) in targets):
+                    continue
+                # is the statement the extraction itself?
+                if any(mb == b and mi == i for mb, mi, m, s_ in ext):
+                    continue
+                okfact = False
+                for c_, p_, e_ in f.facts(b):
+                    if not isinstance(p_, bool):
+                        continue
+                    # the test has to be evaluated after the extraction (a loop guard tested before the body's extraction says
+                    # nothing about that extraction)
+                    if not all(f.dominates((mb, mi), (e_[0], 10 ** 6)) for mb, mi, m, st_ in ext):
+                        continue
+                    s_ = cn.s(c_)
+                    for st in streams:
+                        if (s_ in (st, st + ".operator bool()") and p_ is True) or (s_ == st + ".operator!()" and p_ is False) or (s_ == "!" + st and p_ is False) or (s_ in ("%s.good()" % st,) and p_ is True) or (s_ in ("%s.fail()" % st, "%s.bad()" % st) and p_ is False and s_.endswith("fail()")):
+                            okfact = True
+                if not okfact:
+                    bad.append(f.loc(x) if x.get("ln") else "%s:%s" % (f.file, v.get("ln", f.line)))
+            if "/verif/fixtures/" in f.file:
+                canary = canary or bool(bad)
+                continue
+            where = "%s:%s" % (f.file, v.get("ln", f.line))
+            (ck.ok if not bad else lambda r_, w_, t_: ck.violate(r_, w_, t_, "S.extract:%s(%s):%s" % (f.pq, ",".join(re.sub(r"<.*", "", p_["t"]) for p_ in f.d.get("params", [])), v["n"])))("S.extract", where, "%s: extraction target `%s %s` is initialised or only read under a stream test%s" % (f.pq.split("OpenVolumeMesh::")[-1][:60], v["t"], v["n"], "" if not bad else " - declared without initialiser and read at %s with no test of %s in force" % (sorted(set(bad))[:3], sorted(streams))))
+    ck.analysed["scalar_extraction_targets"] = n
+    ck.floor("scalar_extraction_targets", n, 12)
+    return n, canary
+
+
+def memcpy_null_rule(ck, fb):
+    """memcpy with a run-time length is only reached with a non-zero length: its pointer arguments may be the data() of an
+    empty container, i.e. null - undefined behaviour even for zero bytes"""
+    from .canon import Canon, split_eq
+    ck.rule("M.null", "in the file I/O layer every memcpy/memmove whose length is not a compile-time constant is reached only under a fact that the length is non-zero (`if (n == 0) return;`): callers pass container.data() after resize(n), which is a null pointer for n == 0, and passing null to memcpy is undefined behaviour whatever the length")
+    n = 0
+    seen = set()
+    for f in fb.repo_fns():
+        if not f.has_cfg or f.where in seen or not ("/IO/" in f.file or "/FileManager/" in f.file):
+            continue
+        calls = [(b, i, x) for b, i, x in f.nodes(("call",)) if x.get("pn", x.get("n", "")).split("::")[-1] in ("memcpy", "memmove") and b in f.reach() and len(x.get("a", [])) == 3]
+        if not calls:
+            continue
+        seen.add(f.where)
+        cn = Canon(f)
+        for b, i, x in calls:
+            ln = unwrap(f.resolve(x["a"][2]))
+            if isinstance(ln, dict) and (ln.get("k") in ("lit", "sizeof") or "sizeof" in estr(ln)):
+                ck.count("memcpy_constant_length")
+                continue
+            n += 1
+            L = cn.s(x["a"][2])
+            ok = False
+            for s_, p_, c_ in cn.facts(b):
+                q = split_eq(s_)
+                if q and {q[1], q[2]} == {L, "0"} and ((q[0] == "==") != bool(p_)):
+                    ok = True
+                if s_ in (L, "(%s > 0)" % L, "(0 < %s)" % L) and p_ is True:
+                    ok = True
+                if s_ == "!" + L and p_ is False:
+                    ok = True
+            (ck.ok if ok else lambda r_, w_, t_: ck.violate(r_, w_, t_, "M.null:%s(%s)" % (f.pq, ",".join(p_["t"] for p_ in f.d.get("params", [])))))("M.null", f.loc(x), "%s: memcpy with run-time length %s is reached only when that length is non-zero" % (f.pq.split("OpenVolumeMesh::")[-1][:60], L))
+    ck.floor("memcpy_runtime_length_sites", n, 2)
